@@ -4,4 +4,3 @@ import Eliot.Properties.C07
 #print axioms Sys.C07.app_outcome_unchanged
 #print axioms Sys.C07.outcome_env_independent
 #print axioms Sys.C07.exc_identity
-#print axioms Sys.C07.skeleton_E5
